@@ -6,6 +6,7 @@ import (
 	"sync"
 	"time"
 
+	"github.com/mennanov/fmutils"
 	"github.com/smart-core-os/sc-golang/internal/testproto"
 	"github.com/smart-core-os/sc-golang/pkg/resource"
 	"github.com/smart-core-os/sc-golang/verifharness/vcoq"
@@ -55,6 +56,57 @@ type seqCase struct {
 	preLive  []proto.Message
 	tags     map[string]bool
 	viol     bool
+	evbad    bool // an event value differs from the stored value under the subscription's mask
+	evnote   []string
+	held     []*heldEvent // every event received so far, re-read after every later operation
+}
+
+type heldEvent struct {
+	ev     any
+	copies []proto.Message
+	what   string
+}
+
+func eventValues(ev any) []proto.Message {
+	switch e := ev.(type) {
+	case *resource.ValueChange:
+		return []proto.Message{e.Value}
+	case *resource.CollectionChange:
+		return []proto.Message{e.OldValue, e.NewValue}
+	}
+	return nil
+}
+func sameMsg(a, b proto.Message) bool {
+	if isNilMsg(a) || isNilMsg(b) {
+		return isNilMsg(a) && isNilMsg(b)
+	}
+	return proto.Equal(a, b)
+}
+
+// hold keeps a received event; its values are compared with want = the stored value(s) under the
+// subscription's read mask (reference projection: clone + fmutils.Filter)
+func (s *seqCase) hold(ev any, what string, paths []string, want ...proto.Message) {
+	h := &heldEvent{ev: ev, what: what}
+	for i, v := range eventValues(ev) {
+		if isNilMsg(v) {
+			h.copies = append(h.copies, nil)
+		} else {
+			h.copies = append(h.copies, proto.Clone(v))
+		}
+		if i < len(want) && !sameMsg(v, project(want[i], paths)) {
+			s.evbad = true
+			s.evnote = append(s.evnote, fmt.Sprintf("%s: received %s, stored value under mask %v is %s", what, txt(v), paths, txt(project(want[i], paths))))
+		}
+	}
+	s.held = append(s.held, h)
+}
+func project(m proto.Message, paths []string) proto.Message {
+	if isNilMsg(m) || paths == nil {
+		return m
+	}
+	c := proto.Clone(m)
+	fmutils.Filter(c, paths)
+	return c
 }
 
 func (g *gen) newCase(kind string, coll bool, probe func() []proto.Message) *seqCase {
@@ -79,8 +131,23 @@ func (s *seqCase) after(op string, js any, isRead bool, allowed int) {
 			}
 		}
 	}
+	for _, h := range s.held {
+		for i, v := range eventValues(h.ev) {
+			if !sameMsg(v, h.copies[i]) {
+				s.evbad = true
+				s.evnote = append(s.evnote, fmt.Sprintf("%s: the event now carries %s, it carried %s when received", h.what, txt(v), txt(h.copies[i])))
+				if isNilMsg(v) {
+					h.copies[i] = nil
+				} else {
+					h.copies[i] = proto.Clone(v)
+				}
+			}
+		}
+	}
+	evbad, evnote := s.evbad, s.evnote
+	s.evbad, s.evnote = false, nil
 	s.ops = append(s.ops, op)
-	s.obs = append(s.obs, vcoq.App("mkO", vcoq.Int(len(s.mon.snaps)), vcoq.ListZ(ch), vcoq.Bool(mut)))
+	s.obs = append(s.obs, vcoq.App("mkO", vcoq.Int(len(s.mon.snaps)), vcoq.ListZ(ch), vcoq.Bool(mut), vcoq.Bool(evbad)))
 	desc := []string{}
 	for _, i := range ch {
 		if int(i) != allowed {
@@ -88,10 +155,10 @@ func (s *seqCase) after(op string, js any, isRead bool, allowed int) {
 		}
 		desc = append(desc, fmt.Sprintf("%d:%s", i, s.mon.snaps[i].what))
 	}
-	if mut {
+	if mut || evbad {
 		s.viol = true
 	}
-	s.js = append(s.js, map[string]any{"op": js, "snapshots": len(s.mon.snaps), "changed": desc, "store_mutated_by_read": mut})
+	s.js = append(s.js, map[string]any{"op": js, "snapshots": len(s.mon.snaps), "changed": desc, "store_mutated_by_read": mut, "event_values_wrong": evnote})
 }
 func (s *seqCase) arg(m proto.Message, what string) {
 	i := s.mon.cross(m, what, true)
@@ -302,8 +369,9 @@ func (g *gen) coreMask(pct int) ([]int64, []string) {
 }
 
 type coreSub struct {
-	col  *collector
-	mask []int64
+	col   *collector
+	mask  []int64
+	paths []string
 }
 
 // one random history on a resource.Value or resource.Collection of TestAllTypes
@@ -338,8 +406,9 @@ func (g *gen) coreSeq(coll bool) {
 	}()
 	ids := []string{"1", "2", "3"}
 	nOps := g.r.Range(4, 12)
-	deliver := func(label string) {
-		// one event per open subscription, in the order the subscriptions were opened
+	deliver := func(label string, want ...proto.Message) {
+		// one event per open subscription, in the order the subscriptions were opened; want = the stored
+		// old and new value (collection) or the new value (value) the event must carry under the mask
 		for si, sb := range subs {
 			for _, e := range sb.col.take(1) {
 				switch ev := e.(type) {
@@ -349,8 +418,16 @@ func (g *gen) coreSeq(coll bool) {
 					s.mon.cross(ev.OldValue, fmt.Sprintf("%s event old value (subscription %d)", label, si), false)
 					s.mon.cross(ev.NewValue, fmt.Sprintf("%s event new value (subscription %d)", label, si), false)
 				}
+				s.hold(e, fmt.Sprintf("%s event (subscription %d)", label, si), sb.paths, want...)
 			}
 		}
+	}
+	storedNow := func(id string) proto.Message {
+		if coll {
+			m, _ := col.Get(id)
+			return m
+		}
+		return val.Get()
 	}
 	for i := 0; i < nOps; i++ {
 		id := g.r.Intn(len(ids))
@@ -378,6 +455,7 @@ func (g *gen) coreSeq(coll bool) {
 			}
 			cells := cdr.cells(arg)
 			argTxt := txt(arg)
+			oldStored := storedNow(ids[id])
 			var res proto.Message
 			var err error
 			mode, label := "MSet", "Set"
@@ -398,7 +476,11 @@ func (g *gen) coreSeq(coll bool) {
 			s.arg(arg, label+" argument")
 			if err == nil {
 				s.mon.cross(res, label+" result", false)
-				deliver(label)
+				if coll {
+					deliver(label, oldStored, res)
+				} else {
+					deliver(label, res)
+				}
 			}
 			s.tags["write:"+ib.tag+"/"+ia.tag] = true
 			if ib.bad || ia.bad {
@@ -411,7 +493,7 @@ func (g *gen) coreSeq(coll bool) {
 			label := fmt.Sprintf("op %d Delete %s", i, ids[id])
 			if err == nil {
 				s.mon.cross(res, label+" result", false)
-				deliver(label)
+				deliver(label, res, nil)
 			}
 			s.tags["delete"] = true
 			s.after(vcoq.App("CDelete", vcoq.Z(idZ)), map[string]any{"call": label, "err": fmt.Sprint(err)}, false, -1)
@@ -445,10 +527,11 @@ func (g *gen) coreSeq(coll bool) {
 			}
 			s.tags["list"] = true
 			s.after(vcoq.App("CList", optZList(rmN)), map[string]any{"call": label}, true, -1)
-		case k < 86 && len(subs) < 2: // pull
+		case k < 88 && len(subs) < 3: // pull
 			rmN, rmP := g.coreMask(45)
 			uo := g.r.Chance(25)
-			opts := []resource.ReadOption{resource.WithBackpressure(true), resource.WithUpdatesOnly(uo)}
+			bp := g.r.Chance(60)
+			opts := []resource.ReadOption{resource.WithBackpressure(bp), resource.WithUpdatesOnly(uo)}
 			if rmP != nil {
 				opts = append(opts, resource.WithReadPaths(&testproto.TestAllTypes{}, rmP...))
 			}
@@ -474,7 +557,7 @@ func (g *gen) coreSeq(coll bool) {
 					}
 				}()
 			}
-			label := fmt.Sprintf("op %d Pull mask=%v updates_only=%v", i, rmP, uo)
+			label := fmt.Sprintf("op %d Pull mask=%v updates_only=%v backpressure=%v", i, rmP, uo, bp)
 			for j, e := range c.take(nSeeds) {
 				switch ev := e.(type) {
 				case *resource.ValueChange:
@@ -483,8 +566,9 @@ func (g *gen) coreSeq(coll bool) {
 					s.mon.cross(ev.NewValue, fmt.Sprintf("%s seed %d", label, j), false)
 				}
 			}
-			subs = append(subs, &coreSub{col: c, mask: rmN})
-			s.tags["pull"] = true
+			subs = append(subs, &coreSub{col: c, mask: rmN, paths: rmP})
+			s.tags[fmt.Sprintf("pull backpressure=%v", bp)] = true
+			s.tags[fmt.Sprintf("subscriptions open: %d", len(subs))] = true
 			s.after(vcoq.App("CPull", optZList(rmN), vcoq.Bool(uo), "SId"), map[string]any{"call": label}, true, -1)
 		default:
 			if len(s.args) == 0 {
